@@ -357,11 +357,19 @@ fn check_nonfinite(sh: &mut Shard, r: &mut Rng, a: &IG, lat: &Lat) {
     });
     sh.cases += 1;
     sh.eval(1);
-    // relate-based ring checks are documented not to accept NaN; a panic here is observed, not judged
+    // a non-finite coordinate makes the geometry invalid: is_valid false, validation_errors non-empty - and no panic
+    // (first observed only; judged since the panics of Polygon / MultiPolygon validation on NaN were repaired in /repo)
+    let det = |exp: &str, got: String| json!({"property": "C14", "check": "is_valid.nonfinite", "a": a.json(), "lat": lat.json(), "expected": exp, "got": got, "geo": format!("{:?}", g), "nonfinite_at": target, "on_x": on_x});
     match call(|| g.is_valid()) {
-        Ok(true) => sh.violation(&format!("is_valid.nonfinite|{}|-", a.kind()), json!({"property": "C14", "check": "is_valid.nonfinite", "a": a.json(), "lat": lat.json(), "expected": "false", "got": "true", "geo": format!("{:?}", g), "nonfinite_at": target, "on_x": on_x})),
+        Ok(true) => sh.violation(&format!("is_valid.nonfinite|{}|-", a.kind()), det("false", "true".into())),
         Ok(false) => {}
-        Err(_) => sh.class("nonfinite:panic_observed_not_judged"),
+        Err(p) => sh.violation(&format!("is_valid.nonfinite.panic|{}|-", a.kind()), det("false (no panic)", format!("panic: {p} at {}", last_panic_loc()))),
+    }
+    sh.eval(1);
+    match call(|| g.validation_errors().is_empty()) {
+        Ok(false) => {}
+        Ok(true) => sh.violation(&format!("validation_errors.nonfinite|{}|-", a.kind()), det("a non-empty error list", "empty".into())),
+        Err(p) => sh.violation(&format!("validation_errors.nonfinite.panic|{}|-", a.kind()), det("a non-empty error list (no panic)", format!("panic: {p} at {}", last_panic_loc()))),
     }
     sh.class("class:nonfinite_coordinate");
 }
